@@ -138,6 +138,10 @@ def private_scenarios(rng, n, two=True):
         evs.append({"op": "pickle", "T": T if how != "after-refused-duplicate" else rng.choice(tabs + ["pub"]), "a": "iion", "how": how})
         if how == "after-refused-duplicate":
             evs.append({"op": "pickle", "T": T, "a": "ionD"})
+        if i % 2 == 0:
+            evs.append({"op": "tcalc", "T": T})
+            for c in ("d2o_match", "neutron_sld", "xray_sld", "composite"):
+                evs.append({"op": "calc", "c": c})
         if rng.random() < 0.7:
             g = rng.choice(["cryst", "mag", "act", "neut", "xray"])
             a, p = reps[g]
